@@ -45,10 +45,12 @@ Definition run_C10 (x : sx) : sx :=
   let s := run (map op_of_sx (sx_list (sx_nth 0 x))) in
   let probes := sx_list (sx_nth 1 x) in
   let values := sx_list (sx_nth 2 x) in
-  L (flat_map (fun d =>
+  let once := (flat_map (fun d =>
        match get_set s d with
        | None => [triple dead dead 0]
        | Some ds =>
            [triple (L [of_bool (keys_unique ds); of_bool (vocab_ok ds)]) (L [A 1; A 1]) 0;
             triple (probe_set ds true probes values) (probe_set ds false probes values) 0]
-       end) (seq 0 (length (sets s)))).
+       end) (seq 0 (length (sets s)))) in
+  (* shrink_to_fit changes nothing observable: the same answers again *)
+  L (once ++ once).
